@@ -226,6 +226,7 @@ def run(check, pid, tier, seed, replay):
     shutil.rmtree(workdir, ignore_errors=True)
     os.makedirs(workdir)
     proof_broken = None
+    chk = None
     obligations = discharged = 0
     assumptions = {}
     tables = {}
@@ -265,6 +266,10 @@ def run(check, pid, tier, seed, replay):
                     bad_ax = {k: v for k, v in assumptions.items() if v}
                     if bad_ax:
                         proof_broken = {"file": "Properties/%s.v" % pid, "line": 0, "log": "axioms used: %r" % bad_ax}
+            if tier == "thorough" and not proof_broken and not os.environ.get("VERIF_NO_COQCHK"):
+                chk = check.coqchk(pid, log)
+                if not chk["ok"]:
+                    proof_broken = {"file": "coqchk Verif.Properties.%s" % pid, "line": 0, "log": chk.get("tail", "")}
             if proof_broken:
                 rc, coq_failing = failing_rows(check, log)
         bad = check.audit()
@@ -434,6 +439,8 @@ def run(check, pid, tier, seed, replay):
     result = {"histories": len(runs), "operations": operations, "op_distribution": ops, "distinct_nontrivial": len(runs),
               "known_findings": {c: reproduced.get(c, 0) for c in sorted(known) if c in static_bad or reproduced.get(c)},
               "samples": []}
+    if chk:
+        extra["coqchk"] = chk
     check.write_evidence(pid, cfg, tier, seed, result, obligations, discharged, assumptions, violations, time.time() - t0,
                          known_lines=known_lines, extra=extra)
     print("%s %s: %d workload runs / %d operations, %d race reports in %d classes, %d/%d theorems re-checked, %d violations, %.1fs" % (
